@@ -210,3 +210,77 @@ def fact_holds(facts, pred_desc, polarity):
             elif pred_desc(d) and pol == polarity:
                 return True
     return False
+
+
+# ------------------------------------------------------------------ path facts over origins (K2/K3 vocabulary)
+def path_facts(body, path):
+    """[(kind, value, origins, edge)] for bool and variant edges on the path"""
+    out = []
+    for e in path:
+        l = e.label
+        if not l:
+            continue
+        if l[0] == "bool" and l[2] is not None:
+            out.append(("bool", l[1], edge_origin(body, e), e))
+        elif l[0] == "variant":
+            out.append(("variant", l[2], edge_origin(body, e), e))
+    return out
+
+
+def ret_origins(body, path, start=0):
+    ret = []
+    for bb in [start] + [e.dst for e in path]:
+        for st in body.stmts(bb):
+            if st["lhs"]["local"] == 0 and not st["lhs"]["proj"]:
+                rv = st["rv"]
+                if rv["k"] == "use" and rv["op"]["k"] == "const":
+                    ret = [("const", rv["op"]["val"])]
+                elif rv["k"] == "use" and not [p for p in rv["op"]["place"]["proj"] if p["k"] != "deref"]:
+                    ret = origins(body, rv["op"]["place"]["local"])
+                elif rv["k"] == "agg" and "adt" in rv:
+                    ret = [("agg", rv["adt"], rv["variant"], bb, st)]
+                else:
+                    ret = rv_origins(body, rv, bb, st) or [("expr", bb)]
+        t = body.term(bb)
+        if t["k"] == "call" and t["dest"]["local"] == 0 and not t["dest"]["proj"] and t["callee"]:
+            ret = [("call", callee_base(t), bb, t)]
+    return ret
+
+
+def is_const_ret(ret, v):
+    return len(ret) == 1 and ret[0][0] == "const" and ret[0][1] == v
+
+
+def has_fact(facts, kind, value, pred, through_not=True):
+    """a fact of `kind` ('bool'/'variant') with `value` whose tested value's origin satisfies pred; bool facts look through Not"""
+    for (k, v, orig, e) in facts:
+        if k != kind:
+            continue
+        if kind == "variant":
+            if (value in v if isinstance(value, str) else v == value) and len(v) == 1 and origin_matches(orig, pred):
+                return True
+        else:
+            if v == value and origin_matches(orig, pred):
+                return True
+            if through_not:
+                for o in orig:
+                    if o[0] == "not" and v == (not value) and origin_matches(o[1], pred):
+                        return True
+    return False
+
+
+def true_paths(body, start=0):
+    """(path, facts, ret origins) for every path of a bool-returning body that can return true"""
+    out = []
+    allp = enumerate_paths(body, start=start)
+    for p in allp:
+        ro = ret_origins(body, p, start)
+        if is_const_ret(ro, "false"):
+            continue
+        out.append((p, path_facts(body, p), ro))
+    return out, len(allp)
+
+
+def fmt_path(body, path, n=14):
+    bl = [e for e in path if e.label and e.label[0] in ("bool", "variant")]
+    return " ".join(f"bb{e.src}:{e.label[1] if e.label[0]=='bool' else '/'.join(e.label[2])}" for e in bl[:n])
